@@ -104,6 +104,15 @@ def check_pair(p, name, left, right, **kw):
         )
 
 
+def rebuild_with_block(c, bname):
+    from checks.mutators import rebuild
+
+    r = rebuild(c)
+    non_inputs = [l for l, g in r.gates.items() if g.gate_type != G.INPUT]
+    r.make_block(bname, non_inputs, list(r.outputs))
+    return r
+
+
 def variants(c, rnd):
     """Circuits of the same shape as c: itself, relabelled-equivalent, mutated."""
     yield "self", c
@@ -155,6 +164,24 @@ def unit(p, item, tier, seed):
                    circgen.build(["a", "b"], [("g", G.AND, ("b", "a"))], ["g", "a"]))
         check_pair(p, "after-caller-edited-a-comparator-3", circgen.build(["a", "b"], [("g", G.AND, ("a", "b"))], ["g", "a", "b"]),
                    circgen.build(["a", "b"], [("g", G.OR, ("b", "a"))], ["g", "a", "b"]))
+        # operands whose own labels and block names are the names build_miter uses internally, and a miter as an operand
+        from cirbo.sat import build_miter as _bm
+
+        internal = ["big_or", "circuit1", "circuit2", "pairwise_xor", "circuit2@a", "circuit1@g", "pairwise_xor@big_or", "circuit1@circuit1@g"]
+        for k in range(0, len(internal), 2):
+            n1, n2 = internal[k], internal[k + 1]
+            named = circgen.build(["a", "b"], [(n1, G.AND, ("a", "b")), (n2, G.XOR, (n1, "a"))], [n2])
+            plain = circgen.build(["a", "b"], [("u", G.AND, ("a", "b")), ("v", G.XOR, ("u", "a"))], ["v"])
+            for bname in ("circuit1", "circuit2", "pairwise_xor"):
+                blocked = rebuild_with_block(named, bname)
+                check_pair(p, f"operand-uses-internal-names[{n1},{n2},block {bname}]/left", blocked, plain)
+                check_pair(p, f"operand-uses-internal-names[{n1},{n2},block {bname}]/right", plain, blocked)
+        m1 = _bm(a, b)
+        m2 = _bm(a, circgen.build(["a", "b"], [("g", G.OR, ("a", "b"))], ["g"]))
+        check_pair(p, "operands-are-miters/equal", m1, _bm(a, b))
+        check_pair(p, "operands-are-miters/different", m1, m2)
+        check_pair(p, "miter-against-plain", m2, circgen.build(["p", "q"], [("z", G.XOR, ("p", "q"))], ["z"]))
+        check_pair(p, "plain-against-miter", circgen.build(["p", "q"], [("z", G.XOR, ("p", "q"))], ["z"]), m2)
         check_pair(p, "mismatch-inputs", a, circgen.build(["a"], [("g", G.NOT, ("a",))], ["g"]))
         check_pair(p, "mismatch-outputs", a, circgen.build(["a", "b"], [("g", G.AND, ("a", "b"))], ["g", "g"]))
     else:
